@@ -235,7 +235,7 @@ func (r *DecodeResult) NestedResult(tag int) (*DecodeResult, error) {
 	if err != nil {
 		return nil, err
 	}
-	tmp, err := r.nestedDecoders[nestedIdx].decodeWithPool(b)
+	tmp, err := r.nestedDecoders[nestedIdx].decodeNested(b)
 	if err != nil {
 		return nil, err
 	}
@@ -270,7 +270,7 @@ func (r *DecodeResult) NestedResults(tag int) ([]*DecodeResult, error) {
 	results := make([]*DecodeResult, 0, len(fd.data))
 	dec := r.nestedDecoders[nestedIdx]
 	for _, b := range fd.data {
-		res, err := dec.decodeWithPool(b)
+		res, err := dec.decodeNested(b)
 		if err != nil {
 			return nil, err
 		}
